@@ -38,6 +38,22 @@ def child(job, wfd):
                 kw["tasks"] = [getattr(mod, n) for n in job["tasks_from"]["names"]]
                 if not job["tasks_from"].get("with_paths"):
                     paths = ()
+            if job.get("as_tasks"):
+                # optional job key "as_tasks": every task module of the project (task_*.py, sub-directories included) is imported
+                # here and ALL its task functions are handed to build(tasks=[…]); nothing is collected from paths
+                import importlib.util
+                from pathlib import Path as _P
+                fns = []
+                for k, f in enumerate(sorted(_P(job["root"]).rglob("task_*.py"))):
+                    sp = importlib.util.spec_from_file_location(f"_verif_prog_{k}_{f.stem}", f)
+                    m = importlib.util.module_from_spec(sp)
+                    sp.loader.exec_module(m)
+                    for n, o in vars(m).items():
+                        if callable(o) and getattr(o, "__module__", None) == m.__name__ and (n.startswith("task_") or hasattr(o, "pytask_meta")):
+                            if o not in fns:
+                                fns.append(o)
+                kw["tasks"] = fns
+                paths = ()
             if job.get("raw_paths"):                  # optional: the project addressed through another spelling (relative, alias), verbatim
                 paths = list(job["raw_paths"])
             session = pytask.build(paths=paths, **kw)
